@@ -6,13 +6,13 @@ Open Scope Z_scope.
 
 (* ---------- the per-pull clause of spec_C03 on the model's states ---------- *)
 Theorem pull_delivers : forall dst src days,
-  tombs src = [] -> nodup_ids (nodes src) ->
+  tombs src = [] -> tombs dst = [] -> nodup_ids (nodes src) ->
   days_cover days (needed_days dst src) = true ->
-  delivered src (fst (fst (pull_replica false dst src days))) = true.
+  delivered src (fst (pull_replica dst src days)) = true.
 Proof.
-  intros dst src days Ht Hs Hc. unfold delivered. rewrite Ht. cbn [tombs_subset forallb]. rewrite Bool.andb_true_r.
+  intros dst src days Ht Hd Hs Hc. unfold delivered. rewrite Ht. cbn [tombs_subset forallb]. rewrite Bool.andb_true_r.
   apply forallb_forall. intros n Hin. unfold holds_at_least.
-  rewrite (pull_is_join dst src days (n_id n) Ht Hs Hc), (find_node_in _ _ Hs Hin). cbn [vjoin].
+  rewrite (pull_is_join dst src days (n_id n) Ht Hd Hs Hc), (find_node_in _ _ Hs Hin). cbn [vjoin].
   destruct (find_node (n_id n) (nodes dst)) as [e|].
   - destruct (newer n e) eqn:E; [rewrite newer_irrefl|rewrite E]; reflexivity.
   - rewrite newer_irrefl. reflexivity.
@@ -79,11 +79,11 @@ Proof. intros S x. unfold views. apply Forall_forall. intros o H. apply in_map_i
 Theorem pull_keeps_gview : forall S d s days x,
   no_tombs S -> wf S -> (N.to_nat d < length S)%nat -> (N.to_nat s < length S)%nat ->
   days_cover days (needed_days (get d S) (get s S)) = true ->
-  gview (fst (fst (step false S (Pull d s days)))) x = gview S x.
+  gview (fst (fst (step S (Pull d s days)))) x = gview S x.
 Proof.
   intros S d s days x Ht Hw Hd Hs Hc. cbn [step].
-  pose proof (pull_is_join (get d S) (get s S) days x (Ht s) (Hw s) Hc) as J.
-  destruct (pull_replica false (get d S) (get s S) days) as [[r cnt] ev]. cbn [fst] in *.
+  pose proof (pull_is_join (get d S) (get s S) days x (Ht s) (Ht d) (Hw s) Hc) as J.
+  destruct (pull_replica (get d S) (get s S) days) as [r cnt]. cbn [fst] in *.
   unfold gview, views, set. rewrite (map_set_nth (fun r0 => find_node x (nodes r0))). cbn beta. rewrite J.
   rewrite (gjoin_upd x _ (N.to_nat d) (find_node x (nodes (get d S))) (find_node x (nodes (get s S)))).
   - apply (gjoin_absorb x); [apply views_forall|].
@@ -105,7 +105,7 @@ Definition pulls_in_range (n : nat) (ops : list sop) : Prop :=
   forall o, In o ops -> match o with Pull d s _ => (N.to_nat d < n)%nat /\ (N.to_nat s < n)%nat | _ => False end.
 
 Lemma run_keeps_gview : forall ops S x, no_tombs S -> wf S -> pulls_in_range (length S) ops ->
-  run_complete false S ops = true -> gview (run_sys false S ops) x = gview S x.
+  run_complete S ops = true -> gview (run_sys S ops) x = gview S x.
 Proof.
   induction ops as [|o ops IH]; intros S x Ht Hw Hr Hc; [reflexivity|]. cbn [run_sys run_complete] in *.
   apply Bool.andb_true_iff in Hc. destruct Hc as [Hc0 Hc].
@@ -121,16 +121,16 @@ Qed.
    from S to a state in which all members agree, every member then holds, for every row, the join
    (greatest (mdate, signature)) of the versions the members held in S *)
 Theorem winner_order_independent : forall S ops x p,
-  no_tombs S -> wf S -> pulls_in_range (length S) ops -> run_complete false S ops = true ->
+  no_tombs S -> wf S -> pulls_in_range (length S) ops -> run_complete S ops = true ->
   (N.to_nat p < length S)%nat ->
-  (forall q r, find_node x (nodes (get q (run_sys false S ops))) = find_node x (nodes (get r (run_sys false S ops)))) ->
-  find_node x (nodes (get p (run_sys false S ops))) = gview S x.
+  (forall q r, find_node x (nodes (get q (run_sys S ops))) = find_node x (nodes (get r (run_sys S ops)))) ->
+  find_node x (nodes (get p (run_sys S ops))) = gview S x.
 Proof.
   intros S ops x p Ht Hw Hr Hc Hp Hagree.
   rewrite <- (run_keeps_gview ops S x Ht Hw Hr Hc).
-  set (S1 := run_sys false S ops) in *.
+  set (S1 := run_sys S ops) in *.
   assert (L1 : length S1 = length S).
-  { assert (G : forall ops0 S0, pulls_in_range (length S0) ops0 -> wf S0 -> no_tombs S0 -> length (run_sys false S0 ops0) = length S0).
+  { assert (G : forall ops0 S0, pulls_in_range (length S0) ops0 -> wf S0 -> no_tombs S0 -> length (run_sys S0 ops0) = length S0).
     { induction ops0 as [|o ops0 IH0]; intros S0 R0 W0 T0; [reflexivity|]. cbn [run_sys].
       pose proof (R0 o (or_introl eq_refl)) as Ho. destruct o as [? ? ? ?|? ? ? ?|? ? ?|d s days]; try contradiction.
       destruct (step_inv S0 (Pull d s days) W0 T0 eq_refl) as [W [T L]]. rewrite IH0; try assumption.
